@@ -17,8 +17,8 @@
 //!   I2: 0 <= frozen(a) <= balance(a)                                      (proved preserved here)
 //! Compliance and identity-verifier contracts are foreign-call oracles (arbitrary answer / failure).
 use soroban_sdk::model::{self, world, ArgBuf, TAG_ADDR, TAG_BOOL};
-use soroban_sdk::{contracttype, Address, Env, Flat, Symbol};
-use stellar_tokens::fungible::{AllowanceData, AllowanceKey, FungibleStorageKey, Transfer};
+use soroban_sdk::{contracttype, Address, Env, Flat, MuxedAddress, Symbol};
+use stellar_tokens::fungible::{AllowanceData, AllowanceKey, ContractOverrides, FungibleStorageKey, Transfer};
 use stellar_tokens::rwa::{
     AddressFrozen, Burn, Mint, RWAStorageKey, RecoverySuccess, TokensFrozen, TokensUnfrozen, RWA,
 };
@@ -405,8 +405,15 @@ pub fn c04_transfer() {
     let by = addr_below(NA as u32);
     kani::assume(by != from && by != to);
     let amount: i128 = kani::any();
+    // through the `ContractOverrides` wiring the token contract uses (drops the muxed id, then RWA::transfer)
+    let to_m = MuxedAddress { addr: to.clone(), mux: kani::any() };
 
-    RWA::transfer(&e, &from, &to, amount);
+    <RWA as ContractOverrides>::transfer(&e, &from, &to_m, amount);
+    // reachability witnesses first: Kani assumes a clause once it has been checked
+    witness!(amount > 0 && from != to, "rwa.transfer.moves");
+    witness!(amount > 0 && from == to, "rwa.transfer.self");
+    witness!(amount > 0 && frozen_pre(&pre, &from) > 0 && amount == bal_pre(&pre, &from) - frozen_pre(&pre, &from), "rwa.transfer.exactly_the_free_part");
+    witness!(pre.compl == pre.idv, "rwa.transfer.same_contract_for_both_roles");
 
     prop!(authorized(&from), "C02.rwa.transfer.from_authorized");
     gates!(pre, from, to, amount, "C04.rwa.transfer.gates");
@@ -416,10 +423,6 @@ pub fn c04_transfer() {
     prop!(model::n_calls() == 4, "C04.rwa.transfer.exactly_the_four_foreign_calls");
     let ev = Transfer { from: from.clone(), to: to.clone(), to_muxed_id: None, amount };
     prop!(model::n_events() == 1 && model::event_is(0, Transfer::EVENT_ID, &ev.event_words()), "C01.rwa.transfer.one_exact_event");
-    witness!(amount > 0 && from != to, "rwa.transfer.moves");
-    witness!(amount > 0 && from == to, "rwa.transfer.self");
-    witness!(amount > 0 && frozen_pre(&pre, &from) > 0 && amount == bal_pre(&pre, &from) - frozen_pre(&pre, &from), "rwa.transfer.exactly_the_free_part");
-    witness!(pre.compl == pre.idv, "rwa.transfer.same_contract_for_both_roles");
     end_checks(DECLARED);
 }
 
@@ -477,7 +480,11 @@ pub fn c04_transfer_from() {
     let al = declare_allowance(&from, &spender);
     let amount: i128 = kani::any();
 
-    RWA::transfer_from(&e, &spender, &from, &to, amount);
+    // through the `ContractOverrides` wiring the token contract uses (-> RWA::transfer_from)
+    <RWA as ContractOverrides>::transfer_from(&e, &spender, &from, &to, amount);
+    // reachability witnesses first: Kani assumes a clause once it has been checked
+    witness!(amount > 0 && from != to && spender != from, "rwa.transfer_from.moves");
+    witness!(amount > 0 && allowance_worth_now() > 0, "rwa.transfer_from.partial_spend");
 
     prop!(authorized(&spender), "C02.rwa.transfer_from.spender_authorized");
     prop!(allowance_worth(&al) >= amount, "C02.rwa.transfer_from.allowance_live_and_sufficient");
@@ -490,8 +497,6 @@ pub fn c04_transfer_from() {
     }
     let ev = Transfer { from: from.clone(), to: to.clone(), to_muxed_id: None, amount };
     prop!(model::n_events() == 1 && model::event_is(0, Transfer::EVENT_ID, &ev.event_words()), "C01.rwa.transfer_from.one_exact_event");
-    witness!(amount > 0 && from != to && spender != from, "rwa.transfer_from.moves");
-    witness!(amount > 0 && allowance_worth_now() > 0, "rwa.transfer_from.partial_spend");
     end_checks(DECLARED_ALLOW);
     // last, so that a missing gate does not mask the clauses above.
     // DESIGN.md C04 predicts a genuine violation here: RWA::transfer_from never calls validate_transfer
@@ -510,6 +515,9 @@ pub fn c04_validate_transfer() {
     let amount: i128 = kani::any();
 
     RWA::validate_transfer(&e, &from, &to, amount);
+    // reachability witnesses first: Kani assumes a clause once it has been checked
+    witness!(amount > 0 && from != to, "rwa.validate_transfer.passes");
+    witness!(amount < 0, "rwa.validate_transfer.negative_amount_passes_the_gates");
 
     gates!(pre, from, to, amount, "C04.rwa.validate_transfer.gates");
     prop!(
@@ -517,8 +525,6 @@ pub fn c04_validate_transfer() {
         "C04.rwa.validate_transfer.changes_nothing"
     );
     prop!(model::n_events() == 0 && hooks_count(&pre) == (0, 0, 0), "C04.rwa.validate_transfer.no_event_no_hook");
-    witness!(amount > 0 && from != to, "rwa.validate_transfer.passes");
-    witness!(amount < 0, "rwa.validate_transfer.negative_amount_passes_the_gates");
     end_checks(DECLARED);
 }
 
@@ -535,6 +541,9 @@ pub fn c04_mint() {
     let amount: i128 = kani::any();
 
     RWA::mint(&e, &to, amount);
+    // reachability witnesses first: Kani assumes a clause once it has been checked
+    witness!(amount > 0, "rwa.mint.positive");
+    witness!(amount > 0 && pre.paused && afrozen_pre(&pre, &to), "rwa.mint.while_paused_and_frozen");
 
     prop!(pre.idv_set && called_ok(&pre.idv, F_VERIFY, &args1(&to)), "C04.rwa.mint.recipient_identity_verified");
     prop!(pre.compl_set && asked_true(&pre.compl, F_CAN_CREATE, &args_amount(&to, amount, &pre.token)), "C04.rwa.mint.compliance_can_create_true");
@@ -549,8 +558,6 @@ pub fn c04_mint() {
     prop!(i2_now(&to), "C04.rwa.mint.frozen_le_balance_preserved");
     let ev = Mint { to: to.clone(), amount };
     prop!(model::n_events() == 1 && model::event_is(0, Mint::EVENT_ID, &ev.event_words()), "C01.rwa.mint.one_exact_event");
-    witness!(amount > 0, "rwa.mint.positive");
-    witness!(amount > 0 && pre.paused && afrozen_pre(&pre, &to), "rwa.mint.while_paused_and_frozen");
     end_checks(DECLARED);
 }
 
@@ -565,9 +572,19 @@ pub fn must_unfreeze(p: &Pre, a: &Address, amount: i128) -> i128 {
     }
 }
 
-#[kani::proof]
-#[kani::unwind(18)]
-pub fn c04_forced_transfer() {
+/// The invariant clause I2 of the three supervisory entry points lives in a twin harness of its own
+/// (`*_i2`): it is the one non-local arithmetic fact (it costs the solver more than all other clauses
+/// together), so the twins run in parallel. Both twins share the set-up + call + witnesses below.
+pub struct Sup {
+    pub pre: Pre,
+    pub from: Address,
+    pub to: Address,
+    pub by: Address,
+    pub amount: i128,
+    pub un: i128,
+    pub ft_present_pre: bool,
+}
+fn forced_transfer_call() -> Sup {
     setup_world();
     let e = Env::default();
     let pre = declare_state();
@@ -579,15 +596,33 @@ pub fn c04_forced_transfer() {
     let ft_present_pre = frozen_entry_present(&from);
 
     RWA::forced_transfer(&e, &from, &to, amount);
-
-    moved!(pre, from, to, by, amount, "C01.rwa.forced_transfer", "C04.rwa.forced_transfer");
     let un = must_unfreeze(&pre, &from, amount);
+    // reachability witnesses first: Kani assumes a clause once it has been checked
+    witness!(un > 0 && amount < bal_pre(&pre, &from) && from != to, "rwa.forced_transfer.partial_unfreeze");
+    witness!(un == 0 && amount > 0 && frozen_pre(&pre, &from) > 0, "rwa.forced_transfer.free_part_only");
+    witness!(amount > 0 && pre.paused && afrozen_pre(&pre, &from) && afrozen_pre(&pre, &to), "rwa.forced_transfer.through_pause_and_freeze");
+    witness!(un > 0 && from == to, "rwa.forced_transfer.self_unfreezes");
+    Sup { pre, from, to, by, amount, un, ft_present_pre }
+}
+
+#[kani::proof]
+#[kani::unwind(18)]
+pub fn c04_forced_transfer_i2() {
+    let Sup { from, to, .. } = forced_transfer_call();
+    prop!(i2_now(&from) && i2_now(&to), "C04.rwa.forced_transfer.frozen_le_balance_preserved");
+    end_checks(DECLARED);
+}
+
+#[kani::proof]
+#[kani::unwind(18)]
+pub fn c04_forced_transfer() {
+    let Sup { pre, from, to, by, amount, un, ft_present_pre } = forced_transfer_call();
+    moved!(pre, from, to, by, amount, "C01.rwa.forced_transfer", "C04.rwa.forced_transfer");
     prop!(frozen_now(&from) == frozen_pre(&pre, &from) - un, "C04.rwa.forced_transfer.unfreezes_exactly_the_shortfall");
     if to != from {
         prop!(frozen_now(&to) == frozen_pre(&pre, &to), "C04.rwa.forced_transfer.receiver_frozen_amount_unchanged");
     }
     prop!(frozen_now(&by) == frozen_pre(&pre, &by), "C04.rwa.forced_transfer.bystander_frozen_amount_unchanged");
-    prop!(i2_now(&from) && i2_now(&to), "C04.rwa.forced_transfer.frozen_le_balance_preserved");
     prop!(model::n_calls() == 1, "C04.rwa.forced_transfer.no_other_foreign_call");
     let tr = Transfer { from: from.clone(), to: to.clone(), to_muxed_id: None, amount };
     if un > 0 {
@@ -602,16 +637,10 @@ pub fn c04_forced_transfer() {
         prop!(model::n_events() == 1 && model::event_is(0, Transfer::EVENT_ID, &tr.event_words()), "C01.rwa.forced_transfer.one_exact_event");
         prop!(frozen_entry_present(&from) == ft_present_pre, "C04.rwa.forced_transfer.no_frozen_entry_written_when_free_balance_suffices");
     }
-    witness!(un > 0 && amount < bal_pre(&pre, &from) && from != to, "rwa.forced_transfer.partial_unfreeze");
-    witness!(un == 0 && amount > 0 && frozen_pre(&pre, &from) > 0, "rwa.forced_transfer.free_part_only");
-    witness!(amount > 0 && pre.paused && afrozen_pre(&pre, &from) && afrozen_pre(&pre, &to), "rwa.forced_transfer.through_pause_and_freeze");
-    witness!(un > 0 && from == to, "rwa.forced_transfer.self_unfreezes");
     end_checks(DECLARED);
 }
 
-#[kani::proof]
-#[kani::unwind(18)]
-pub fn c04_burn() {
+fn burn_call() -> Sup {
     setup_world();
     let e = Env::default();
     let pre = declare_state();
@@ -621,16 +650,33 @@ pub fn c04_burn() {
     let amount: i128 = kani::any();
 
     RWA::burn(&e, &from, amount);
+    let un = must_unfreeze(&pre, &from, amount);
+    // reachability witnesses first: Kani assumes a clause once it has been checked
+    witness!(un > 0 && amount < bal_pre(&pre, &from), "rwa.burn.partial_unfreeze");
+    witness!(un == 0 && amount > 0 && frozen_pre(&pre, &from) > 0, "rwa.burn.free_part_only");
+    witness!(amount > 0 && pre.paused && afrozen_pre(&pre, &from), "rwa.burn.through_pause_and_freeze");
+    Sup { pre, to: from.clone(), from, by, amount, un, ft_present_pre: false }
+}
 
+#[kani::proof]
+#[kani::unwind(18)]
+pub fn c04_burn_i2() {
+    let Sup { from, .. } = burn_call();
+    prop!(i2_now(&from), "C04.rwa.burn.frozen_le_balance_preserved");
+    end_checks(DECLARED);
+}
+
+#[kani::proof]
+#[kani::unwind(18)]
+pub fn c04_burn() {
+    let Sup { pre, from, by, amount, un, .. } = burn_call();
     prop!(amount >= 0, "C01.rwa.burn.amount_nonneg");
     prop!(bal_pre(&pre, &from) >= amount, "C01.rwa.burn.sufficient_balance");
     prop!(bal_now(&from) == bal_pre(&pre, &from) - amount, "C01.rwa.burn.from_debited_exactly");
     prop!(supply_now() == pre.supply - amount && supply_now() >= 0, "C01.rwa.burn.supply_minus_amount");
     prop!(bal_now(&by) == bal_pre(&pre, &by), "C01.rwa.burn.bystander_unchanged");
-    let un = must_unfreeze(&pre, &from, amount);
     prop!(frozen_now(&from) == frozen_pre(&pre, &from) - un, "C04.rwa.burn.unfreezes_exactly_the_shortfall");
     prop!(frozen_now(&by) == frozen_pre(&pre, &by), "C04.rwa.burn.bystander_frozen_amount_unchanged");
-    prop!(i2_now(&from), "C04.rwa.burn.frozen_le_balance_preserved");
     prop!(pre.compl_set && once_exact(&pre.compl, F_DESTROYED, &args_amount(&from, amount, &pre.token)), "C04.rwa.burn.destroyed_hook_exactly_once_exact_args");
     prop!(hooks_count(&pre) == (0, 0, 1) && model::n_calls() == 1, "C04.rwa.burn.no_other_foreign_call");
     prop!(config_unchanged(&pre) && flags_unchanged(&pre), "C04.rwa.burn.config_and_freeze_flags_unchanged");
@@ -646,9 +692,6 @@ pub fn c04_burn() {
     } else {
         prop!(model::n_events() == 1 && model::event_is(0, Burn::EVENT_ID, &bu.event_words()), "C01.rwa.burn.one_exact_event");
     }
-    witness!(un > 0 && amount < bal_pre(&pre, &from), "rwa.burn.partial_unfreeze");
-    witness!(un == 0 && amount > 0 && frozen_pre(&pre, &from) > 0, "rwa.burn.free_part_only");
-    witness!(amount > 0 && pre.paused && afrozen_pre(&pre, &from), "rwa.burn.through_pause_and_freeze");
     end_checks(DECLARED);
 }
 
@@ -674,9 +717,17 @@ pub fn recovery_target_was(p: &Pre, old: &Address, new: &Address) -> bool {
     n >= 1 && ok
 }
 
-#[kani::proof]
-#[kani::unwind(18)]
-pub fn c04_recover_balance() {
+pub struct Rec {
+    pub pre: Pre,
+    pub old: Address,
+    pub new: Address,
+    pub by: Address,
+    pub r: bool,
+    pub lost: i128,
+    pub f: i128,
+    pub flag: bool,
+}
+fn recover_call() -> Rec {
     setup_world();
     let e = Env::default();
     let pre = declare_state();
@@ -690,6 +741,27 @@ pub fn c04_recover_balance() {
     let lost = bal_pre(&pre, &old);
     let f = frozen_pre(&pre, &old);
     let flag = afrozen_pre(&pre, &old);
+    // reachability witnesses first: Kani assumes a clause once it has been checked
+    witness!(r && old != new && f > 0 && f < lost && flag && frozen_pre(&pre, &new) > 0, "rwa.recover.carries_partial_freeze_and_flag");
+    witness!(r && old != new && f == 0 && !flag, "rwa.recover.plain");
+    witness!(!r, "rwa.recover.nothing_to_recover");
+    witness!(r && old == new, "rwa.recover.self");
+    witness!(r && pre.paused, "rwa.recover.while_paused");
+    Rec { pre, old, new, by, r, lost, f, flag }
+}
+
+#[kani::proof]
+#[kani::unwind(18)]
+pub fn c04_recover_balance_i2() {
+    let Rec { old, new, .. } = recover_call();
+    prop!(i2_now(&old) && i2_now(&new), "C04.rwa.recover.frozen_le_balance_preserved");
+    end_checks(DECLARED);
+}
+
+#[kani::proof]
+#[kani::unwind(18)]
+pub fn c04_recover_balance() {
+    let Rec { pre, old, new, by, r, lost, f, flag } = recover_call();
     prop!(pre.idv_set && called_ok(&pre.idv, F_VERIFY, &args1(&new)), "C04.rwa.recover.new_account_identity_verified");
     prop!(pre.idv_set && recovery_target_was(&pre, &old, &new), "C04.rwa.recover.only_to_registered_recovery_target");
     prop!(r == (lost != 0), "C04.rwa.recover.returns_whether_anything_moved");
@@ -707,7 +779,6 @@ pub fn c04_recover_balance() {
         } else {
             prop!(balances_unchanged(&pre) && frozen_unchanged(&pre) && flags_unchanged(&pre), "C04.rwa.recover.self_recovery_neutral");
         }
-        prop!(i2_now(&old) && i2_now(&new), "C04.rwa.recover.frozen_le_balance_preserved");
         prop!(pre.compl_set && once_exact(&pre.compl, F_TRANSFERRED, &args_transfer(&old, &new, lost, &pre.token)), "C04.rwa.recover.transferred_hook_exactly_once_exact_args");
         prop!(hooks_count(&pre) == (1, 0, 0) && model::n_calls() == 3, "C04.rwa.recover.no_other_foreign_call");
         // event sequence: [TokensUnfrozen(old, f)]? Transfer(old, new, lost) [TokensFrozen(new, f)]? [AddressFrozen(new, true)]? RecoverySuccess
@@ -735,11 +806,6 @@ pub fn c04_recover_balance() {
             }
         }
     }
-    witness!(r && old != new && f > 0 && f < lost && flag && frozen_pre(&pre, &new) > 0, "rwa.recover.carries_partial_freeze_and_flag");
-    witness!(r && old != new && f == 0 && !flag, "rwa.recover.plain");
-    witness!(!r, "rwa.recover.nothing_to_recover");
-    witness!(r && old == new, "rwa.recover.self");
-    witness!(r && pre.paused, "rwa.recover.while_paused");
     end_checks(DECLARED);
 }
 
@@ -756,6 +822,9 @@ pub fn c04_freeze_partial_tokens() {
     let amount: i128 = kani::any();
 
     RWA::freeze_partial_tokens(&e, &user, amount);
+    // reachability witnesses first: Kani assumes a clause once it has been checked
+    witness!(amount > 0 && frozen_now(&user) == bal_now(&user), "rwa.freeze_partial.up_to_whole_balance");
+    witness!(amount > 0 && frozen_pre(&pre, &user) > 0, "rwa.freeze_partial.on_top");
 
     prop!(amount >= 0, "C04.rwa.freeze_partial.amount_nonneg");
     prop!(frozen_pre(&pre, &user).checked_add(amount).is_some() && frozen_now(&user) == frozen_pre(&pre, &user) + amount, "C04.rwa.freeze_partial.frozen_plus_amount");
@@ -764,8 +833,6 @@ pub fn c04_freeze_partial_tokens() {
     prop!(balances_unchanged(&pre) && supply_now() == pre.supply && flags_unchanged(&pre) && config_unchanged(&pre), "C04.rwa.freeze_partial.nothing_else_changes");
     let ev = TokensFrozen { user_address: user.clone(), amount };
     prop!(model::n_events() == 1 && model::event_is(0, TokensFrozen::EVENT_ID, &ev.event_words()) && model::n_calls() == 0, "C04.rwa.freeze_partial.one_exact_event_no_foreign_call");
-    witness!(amount > 0 && frozen_now(&user) == bal_now(&user), "rwa.freeze_partial.up_to_whole_balance");
-    witness!(amount > 0 && frozen_pre(&pre, &user) > 0, "rwa.freeze_partial.on_top");
     end_checks(DECLARED);
 }
 
@@ -781,6 +848,9 @@ pub fn c04_unfreeze_partial_tokens() {
     let amount: i128 = kani::any();
 
     RWA::unfreeze_partial_tokens(&e, &user, amount);
+    // reachability witnesses first: Kani assumes a clause once it has been checked
+    witness!(amount > 0 && frozen_now(&user) == 0, "rwa.unfreeze_partial.all");
+    witness!(amount > 0 && frozen_now(&user) > 0, "rwa.unfreeze_partial.some");
 
     prop!(amount >= 0, "C04.rwa.unfreeze_partial.amount_nonneg");
     prop!(amount <= frozen_pre(&pre, &user) && frozen_now(&user) == frozen_pre(&pre, &user) - amount, "C04.rwa.unfreeze_partial.frozen_minus_amount");
@@ -789,8 +859,6 @@ pub fn c04_unfreeze_partial_tokens() {
     prop!(balances_unchanged(&pre) && supply_now() == pre.supply && flags_unchanged(&pre) && config_unchanged(&pre), "C04.rwa.unfreeze_partial.nothing_else_changes");
     let ev = TokensUnfrozen { user_address: user.clone(), amount };
     prop!(model::n_events() == 1 && model::event_is(0, TokensUnfrozen::EVENT_ID, &ev.event_words()) && model::n_calls() == 0, "C04.rwa.unfreeze_partial.one_exact_event_no_foreign_call");
-    witness!(amount > 0 && frozen_now(&user) == 0, "rwa.unfreeze_partial.all");
-    witness!(amount > 0 && frozen_now(&user) > 0, "rwa.unfreeze_partial.some");
     end_checks(DECLARED);
 }
 
@@ -806,14 +874,15 @@ pub fn c04_set_address_frozen() {
     let freeze: bool = kani::any();
 
     RWA::set_address_frozen(&e, &user, freeze);
+    // reachability witnesses first: Kani assumes a clause once it has been checked
+    witness!(freeze && !afrozen_pre(&pre, &user), "rwa.set_address_frozen.freezes");
+    witness!(!freeze && afrozen_pre(&pre, &user), "rwa.set_address_frozen.unfreezes");
 
     prop!(afrozen_now(&user) == freeze, "C04.rwa.set_address_frozen.flag_stored");
     prop!(afrozen_now(&other) == afrozen_pre(&pre, &other), "C04.rwa.set_address_frozen.other_account_unchanged");
     prop!(balances_unchanged(&pre) && frozen_unchanged(&pre) && supply_now() == pre.supply && config_unchanged(&pre), "C04.rwa.set_address_frozen.nothing_else_changes");
     let ev = AddressFrozen { user_address: user.clone(), is_frozen: freeze };
     prop!(model::n_events() == 1 && model::event_is(0, AddressFrozen::EVENT_ID, &ev.event_words()) && model::n_calls() == 0, "C04.rwa.set_address_frozen.one_exact_event_no_foreign_call");
-    witness!(freeze && !afrozen_pre(&pre, &user), "rwa.set_address_frozen.freezes");
-    witness!(!freeze && afrozen_pre(&pre, &user), "rwa.set_address_frozen.unfreezes");
     end_checks(DECLARED);
 }
 
